@@ -99,6 +99,10 @@ class Compiler:
             for v in reversed(vals[:-1]):
                 out = "(%s %s %s)" % (k, v, out)
             return out
+        if isinstance(n, ast.IfExp):
+            if ast.unparse(n.test) != ast.unparse(n.body):
+                raise Unsupported("conditional expression other than `x if x else y`")
+            return "(.or %s %s)" % (self.expr(n.test, bound), self.expr(n.orelse, bound))
         if isinstance(n, ast.Compare):
             if len(n.ops) != 1:
                 raise Unsupported("chained comparison")
@@ -277,6 +281,49 @@ class _Subst(ast.NodeTransformer):
         return self.generic_visit(node)
 
 
+def collecting_loop(comp, f):
+    """a helper `def f(obj)` of exactly the shape
+           out = []
+           for v in obj.<attr>:
+               if c1: out.append(e1)  [elif c2: out.append(e2)]*
+           return out
+    -> (iterated path, loop variable, [(condition, appended value)] as Lean terms); reads are those of the loop variable"""
+    body = [st for st in f.body if not (isinstance(st, ast.Expr) and isinstance(st.value, ast.Constant))]
+    if len(f.args.args) != 1 or len(body) != 3:
+        raise ExtractError("%s: not a collecting loop" % f.name)
+    init, loop, ret = body
+    if not (isinstance(init, ast.Assign) and len(init.targets) == 1 and isinstance(init.targets[0], ast.Name)
+            and isinstance(init.value, ast.List) and not init.value.elts):
+        raise ExtractError("%s: first statement is not `<name> = []`" % f.name)
+    out = init.targets[0].id
+    if not (isinstance(ret, ast.Return) and isinstance(ret.value, ast.Name) and ret.value.id == out):
+        raise ExtractError("%s: does not return the collected list" % f.name)
+    if not (isinstance(loop, ast.For) and not loop.orelse and isinstance(loop.target, ast.Name)
+            and len(loop.body) == 1 and isinstance(loop.body[0], ast.If)):
+        raise ExtractError("%s: loop shape" % f.name)
+    itpath = comp.path_of(loop.iter)
+    if itpath is None or itpath.split(".")[0] != f.args.args[0].arg:
+        raise ExtractError("%s: the loop does not iterate over an attribute of the parameter" % f.name)
+    branches = []
+    st = loop.body[0]
+    while True:
+        if not (len(st.body) == 1 and isinstance(st.body[0], ast.Expr) and isinstance(st.body[0].value, ast.Call)
+                and comp.path_of(st.body[0].value.func) == out + ".append" and len(st.body[0].value.args) == 1
+                and not st.body[0].value.keywords):
+            raise ExtractError("%s: a branch is not a single append" % f.name)
+        try:
+            branches.append((comp.expr(st.test), comp.expr(st.body[0].value.args[0])))
+        except Unsupported as e:
+            raise ExtractError("%s: %s" % (f.name, e))
+        if not st.orelse:
+            break
+        if len(st.orelse) == 1 and isinstance(st.orelse[0], ast.If):
+            st = st.orelse[0]
+        else:
+            raise ExtractError("%s: else branch" % f.name)
+    return itpath, loop.target.id, branches
+
+
 def sites(tree):
     """[(function, identifier, [('if', test node, negated) | ('for', node) | ('except', text)])] in source order, for
     every `ValidationError.<X>` reference in a module-level function (same walk as extract/validator.report_sites)"""
@@ -391,6 +438,9 @@ def analyse(repo):
 
 def extract(repo):
     tree, fns, comp, per_fn, loops, order = analyse(repo)
+    if "get_dim_units" not in fns:
+        raise ExtractError("get_dim_units not found")
+    itpath, var, branches = collecting_loop(comp, fns["get_dim_units"])
     if not comp.reads:
         raise ExtractError("validator.py: no condition could be compiled")
     ctors = [read_ctor(p) for p in comp.reads]
@@ -445,6 +495,12 @@ def extract(repo):
         L.append("/-- `%s`: sites with a condition outside the compiled fragment -/" % fn)
         L.append("def opaque_%s : List MsgId := [%s]" % (fn, ", ".join("." + i for i in per_fn[fn]["opaque"])))
         L.append("")
+    L.append("/-- `get_dim_units(data_array)`: `out = []; for %s in %s: if c: out.append(e) elif …; return out` as "
+             "(condition, appended value) per branch -/" % (var, itpath))
+    L.append("def getDimUnitsBranches : List (Expr Read × Expr Read) := [%s]"
+             % ", ".join("(%s, %s)" % b for b in branches))
+    L.append("def getDimUnitsLoop : String × String := (%s, %s)" % (lean_str(var), lean_str(itpath)))
+    L.append("")
     L.append("/-- verdict helpers inlined at their call (their loops compiled into `Expr.matchAll`) -/")
     L.append("def inlinedHelpers : List String := [%s]" % ", ".join(lean_str(h) for h in comp.inlined))
     L.append("")
